@@ -375,4 +375,4 @@ def check(ctx):
     r5_error_ref_index_agrees(ctx)
 
 
-CLAUSE += "; the handler found for the error's own type is attached whenever it is found, whatever the catch-all lookup says"
+CLAUSE += " Also: the handler found for the error's own type is attached whenever it is found, whatever the catch-all lookup says."
